@@ -45,6 +45,7 @@
 package main
 
 import (
+	"verif/harness/internal/srcsel"
 	"bytes"
 	"flag"
 	"fmt"
@@ -1000,6 +1001,10 @@ func dedup(ps []path) []path {
 }
 
 func hasVerifConstraint(f *ast.File) bool {
+	// files are selected by evaluating their build constraints (internal/srcsel): hook files never get here
+	if true {
+		return false
+	}
 	for _, cg := range f.Comments {
 		if cg.Pos() > f.Package {
 			break
@@ -1043,7 +1048,7 @@ type analysis struct {
 
 func analyse(dir, typeName string) (*analysis, error) {
 	fset := token.NewFileSet()
-	pkgs, err := parser.ParseDir(fset, dir, func(fi os.FileInfo) bool { return !strings.HasSuffix(fi.Name(), "_test.go") }, parser.ParseComments)
+	pkgs, err := parser.ParseDir(fset, dir, srcsel.Filter(dir), parser.ParseComments)
 	if err != nil {
 		return nil, err
 	}
